@@ -164,6 +164,9 @@ class Exec:
             r = w.raw_git(repo, "diff", "--name-only", "--diff-filter=U", "-z")
             paths = sorted(p for p in r.out.split("\0") if p)
             res["paths"] = paths
+            if op.get("pre_ckpt") and paths:
+                # the person resolving announces the edit (keeps the run outside finding initial_positional)
+                w.ckpt_human(repo, paths, env=env)
             for p in paths:
                 old = w.read(repo, p) or ""
                 new = resolve_conflict(old, op.get("strategy", "union"))
@@ -179,7 +182,9 @@ class Exec:
             remote = os.path.join(w.root, "remote.git")
             os.makedirs(remote, exist_ok=True)
             w.raw_git(remote, "init", "-q", "--bare", "-b", "main")
-            w.raw_git(repo, "remote", "add", "origin", remote)
+            # a relative URL: merge messages ("Merge branch 'main' of ../remote") must not carry the scratch path,
+            # or twin and pair worlds would get different commit ids
+            w.raw_git(repo, "remote", "add", "origin", "../remote.git")
             r = w.raw_git(repo, "push", "-q", "-u", "origin", "main")
             res.update(code=r.code, err=r.err[-300:])
         elif kind == "remote_commit":
@@ -189,12 +194,61 @@ class Exec:
             if not os.path.isdir(tmp):
                 w.raw_git(w.root, "clone", "-q", remote, tmp)
             w.raw_git(tmp, "pull", "-q", "--ff-only", "origin", "main")
+            before = w.read(tmp, op["path"]) or ""
             w.write(tmp, op["path"], op["content"])
-            self.ledger.edit("", op["content"], HUMAN)
+            self.ledger.edit(before, op["content"], HUMAN)
             w.raw_git(tmp, "add", "-A")
             w.raw_git(tmp, "commit", "-q", "-m", op.get("msg", "upstream"))
             r = w.raw_git(tmp, "push", "-q", "origin", "main")
             res.update(code=r.code, err=r.err[-300:])
+        elif kind == "server_merge":
+            # the hosting service merges a pushed branch with PLAIN git: squash merge (one new commit)
+            # or rebase merge (the branch's commits re-created on top of main); then main is published
+            remote = os.path.join(w.root, "remote.git")
+            srv = os.path.join(w.root, "server-clone")
+            if not os.path.isdir(srv):
+                w.raw_git(w.root, "clone", "-q", remote, srv)
+            w.raw_git(srv, "fetch", "-q", "origin")
+            w.raw_git(srv, "checkout", "-q", "-B", "main", "origin/main")
+            head_ref = "origin/" + op["head_ref"]
+            info = {"base_sha": w.head(srv), "head_sha": w.head(srv, head_ref), "how": op["how"]}
+            if op["how"] == "squash":
+                r = w.raw_git(srv, "merge", "--squash", head_ref)
+                if r.code == 0:
+                    r = w.raw_git(srv, "commit", "-q", "-m", "squash merge of %s" % op["head_ref"])
+                else:
+                    w.raw_git(srv, "reset", "-q", "--hard")
+            else:
+                mb = w.raw_git(srv, "merge-base", "HEAD", head_ref).out.strip()
+                r = w.raw_git(srv, "cherry-pick", "%s..%s" % (mb, head_ref))
+                if r.code != 0:
+                    w.raw_git(srv, "cherry-pick", "--abort")
+            info["ok"] = r.code == 0
+            if r.code == 0:
+                info["merge_sha"] = w.head(srv)
+                r = w.raw_git(srv, "push", "-q", "origin", "main")
+            self.gen_state["ci"] = info
+            res.update(code=r.code, err=r.err[-300:])
+        elif kind == "ci_run":
+            # a CI job: fresh PLAIN clone of the remote, then git-ai's CI entry point
+            info = self.gen_state.get("ci") or {}
+            res["code"] = 0
+            if info.get("ok"):
+                remote = os.path.join(w.root, "remote.git")
+                ci = os.path.join(w.root, "ci-clone")
+                if os.path.isdir(ci):
+                    import shutil
+                    shutil.rmtree(ci)
+                w.raw_git(w.root, "clone", "-q", remote, ci)
+                self.repos["ci"] = ci
+                if op.get("tool") == "squash_authorship":
+                    w.raw_git(ci, "fetch", "-q", "origin", "+refs/notes/ai:refs/notes/ai")
+                    r = w.gitai(ci, "squash-authorship", op["base_ref"], info["merge_sha"], info["head_sha"], env=env)
+                else:
+                    r = w.gitai(ci, "ci", "local", "merge", "--merge-commit-sha", info["merge_sha"],
+                                "--base-ref", op["base_ref"], "--head-ref", op["head_ref"],
+                                "--head-sha", info["head_sha"], "--base-sha", info["base_sha"], env=env)
+                res.update(code=r.code, out=r.out, err=r.err[-600:], hang=r.hang, merge_sha=info["merge_sha"])
         elif kind == "bulk_notes":
             # a large pre-existing notes ref (two fan-out levels), built in one fast-import
             n = op.get("n", 70001)
@@ -355,4 +409,13 @@ def in_progress(w, repo):
                        ("MERGE_HEAD", "merge"), ("REVERT_HEAD", "revert")):
         if os.path.exists(os.path.join(gd, name)):
             return kind
+    todo = os.path.join(gd, "sequencer", "todo")
+    if os.path.exists(todo):
+        # a multi-commit cherry-pick / revert that stopped between two commits (no *_HEAD file)
+        try:
+            with open(todo) as f:
+                first = f.read(10)
+        except OSError:
+            first = ""
+        return "revert" if first.startswith("revert") else "cherry-pick"
     return None
